@@ -26,7 +26,12 @@ struct Config {
     type_filter: Option<&'static str>,
     /// (gap index, modification index)
     mods: Vec<(usize, usize)>,
+    /// element names carry a 40-byte common prefix on the wire (elements that agree in a long prefix must still
+    /// be told apart by the iteration order; a seeded change that hashed only the first 32 bytes went unnoticed)
+    long: bool,
 }
+
+const LONG_PREFIX: &str = "tenant:acme-corporation:eu-west-1:sessn:";
 
 fn type_of_key(k: &str) -> &'static str {
     // b and d are lists, everything else is a string (for the TYPE filter)
@@ -55,7 +60,13 @@ fn configs(thorough: bool) -> Vec<Config> {
             for &count in counts.iter() {
                 for &pattern in patterns.iter() {
                     for &tf in types.iter() {
-                        let mut push = |mods: Vec<(usize, usize)>| out.push(Config { kind, subset, big, count, pattern, type_filter: tf, mods });
+                        let want_long = (thorough || subset == 31) && tf.is_none();
+                        let mut push = |mods: Vec<(usize, usize)>| {
+                            out.push(Config { kind, subset, big, count, pattern, type_filter: tf, mods: mods.clone(), long: false });
+                            if want_long && mods.len() <= 1 {
+                                out.push(Config { kind, subset, big, count, pattern, type_filter: tf, mods, long: true });
+                            }
+                        };
                         push(vec![]);
                         for g in 0..max_gaps {
                             for m in 0..MODS.len() {
@@ -93,10 +104,14 @@ fn run_config(h: &mut Harness, c: &Config) -> Result<(Vec<String>, Value), Strin
             present.insert(format!("x{:02}", i));
         }
     }
+    let long = c.long;
     let add = |h: &mut Harness, e: &str| -> Result<(), String> {
+        let wire = if long { format!("{}{}", LONG_PREFIX, e) } else { e.to_string() };
+        let short = e;
+        let e = wire.as_str();
         let r = match kind {
             "SCAN" => {
-                if type_of_key(e) == "list" {
+                if type_of_key(short) == "list" {
                     h.aux_call(&["RPUSH", e, "v"])?
                 } else {
                     h.aux_call(&["SET", e, "v"])?
@@ -112,6 +127,8 @@ fn run_config(h: &mut Harness, c: &Config) -> Result<(Vec<String>, Value), Strin
         Ok(())
     };
     let del = |h: &mut Harness, e: &str| -> Result<(), String> {
+        let wire = if long { format!("{}{}", LONG_PREFIX, e) } else { e.to_string() };
+        let e = wire.as_str();
         match kind {
             "SCAN" => h.aux_call(&["DEL", e])?,
             "HSCAN" => h.aux_call(&["HDEL", "coll", e])?,
@@ -150,7 +167,7 @@ fn run_config(h: &mut Harness, c: &Config) -> Result<(Vec<String>, Value), Strin
         let mut args: Vec<String> = if kind == "SCAN" { vec!["SCAN".into(), cursor.clone()] } else { vec![kind.into(), "coll".into(), cursor.clone()] };
         if let Some(p) = c.pattern {
             args.push("MATCH".into());
-            args.push(p.into());
+            args.push(if long { format!("{}{}", LONG_PREFIX, p) } else { p.into() });
         }
         args.push("COUNT".into());
         args.push(c.count.to_string());
@@ -192,6 +209,7 @@ fn run_config(h: &mut Harness, c: &Config) -> Result<(Vec<String>, Value), Strin
             "HSCAN" | "ZSCAN" => items.chunks(2).map(|p| p[0].clone()).collect(),
             _ => items.clone(),
         };
+        let elems: Vec<String> = elems.into_iter().map(|e| if long { e.strip_prefix(LONG_PREFIX).map(|x| x.to_string()).unwrap_or(e) } else { e }).collect();
         trace.push(format!("{} -> cursor {} [{}]", args.join(" "), next, elems.join(" ")));
         returned.extend(elems);
         if next == "0" {
@@ -256,7 +274,7 @@ fn run_config(h: &mut Harness, c: &Config) -> Result<(Vec<String>, Value), Strin
     }
     problems.sort();
     problems.dedup();
-    let detail = json!({"kind": kind, "initial": throughout.iter().cloned().collect::<Vec<_>>(), "count": c.count, "match": c.pattern, "type": c.type_filter,
+    let detail = json!({"kind": kind, "initial": throughout.iter().cloned().collect::<Vec<_>>(), "count": c.count, "match": c.pattern, "type": c.type_filter, "long_common_prefix": c.long,
         "modifications": c.mods.iter().map(|(g, m)| format!("after call {}: {}", g + 1, MODS[*m])).collect::<Vec<_>>(), "trace": trace, "calls": calls});
     Ok((problems, detail))
 }
@@ -361,7 +379,7 @@ pub fn parent(tier: &str) -> i32 {
     println!("  c19: iterations={} scan-calls={} iterations-with-a-problem={}", iterations, calls, with_problem);
     report.coverage = json!({
         "states": iterations.max(1), "transitions": calls.max(1), "traces_validated_against_impl": iterations, "samples": samples, "exhaustive": true,
-        "explanation": "states = complete cursor iterations (one per configuration), transitions = scan calls. Configurations enumerated completely: {SCAN, HSCAN, SSCAN, ZSCAN} x initial element sets (all subsets of {a..e}; quick: those with >= 2 elements; plus one 17-element collection that leaves the small-collection fast path) x COUNT {1,2,10} (thorough {1,2,3,10}) x MATCH {none, [a-c]} (thorough also *, ?) x TYPE {none, string} (thorough also list) x placements of 0 or 1 (thorough: up to 2) modifications (add an element sorting first/middle/last; delete the smallest/middle/largest present) in any of the first 6 gaps between calls. Oracle: elements present from before the first call to after the last and passing the filters are all returned; everything returned existed at some time and passes the filters; the iteration reaches cursor 0 within 4 x (elements + 2) + 8 calls.",
+        "explanation": "states = complete cursor iterations (one per configuration), transitions = scan calls. Configurations enumerated completely: {SCAN, HSCAN, SSCAN, ZSCAN} x initial element sets (all subsets of {a..e}; quick: those with >= 2 elements; plus one 17-element collection that leaves the small-collection fast path; the full sets also with every element name behind a common 40-byte prefix) x COUNT {1,2,10} (thorough {1,2,3,10}) x MATCH {none, [a-c]} (thorough also *, ?) x TYPE {none, string} (thorough also list) x placements of 0 or 1 (thorough: up to 2) modifications (add an element sorting first/middle/last; delete the smallest/middle/largest present) in any of the first 6 gaps between calls. Oracle: elements present from before the first call to after the last and passing the filters are all returned; everything returned existed at some time and passes the filters; the iteration reaches cursor 0 within 4 x (elements + 2) + 8 calls.",
     });
     report.assumptions = vec!["MATCH semantics = Redis stringmatchlen (the reference port used in C01); TYPE filter by the key's type".into()];
     report.finish()
